@@ -106,6 +106,18 @@ func (c *boundsCtx) key1(v ssa.Value, d int) string {
 		if b, ok := x.Call.Value.(*ssa.Builtin); ok && (b.Name() == "len" || b.Name() == "cap") && len(x.Call.Args) == 1 {
 			return b.Name() + "(" + c.key1(x.Call.Args[0], d+1) + ")"
 		}
+	case *ssa.BinOp:
+		if x.Op == token.ADD && isIntLike(x.Type()) {
+			if _, isC := constInt(x.Y); !isC {
+				if _, isC2 := constInt(x.X); !isC2 {
+					a, b := c.key1(x.X, d+1), c.key1(x.Y, d+1)
+					if a > b {
+						a, b = b, a
+					}
+					return "(" + a + "+" + b + ")"
+				}
+			}
+		}
 	}
 	return "v:" + v.Name()
 }
@@ -436,6 +448,49 @@ func (c *boundsCtx) defFacts(g *dgraph, v ssa.Value, seen map[ssa.Value]bool, de
 	if isSliceOrString(v.Type()) {
 		ln := term{"len(" + k + ")", 0}
 		g.addLE(term{zeroSym, 0}, ln)
+		if ms, ok := v.(*ssa.MakeSlice); ok {
+			lt := c.termOf(ms.Len)
+			g.addLE(ln, lt)
+			g.addLE(lt, ln)
+			c.defFacts(g, ms.Len, seen, depth+1)
+		}
+		if cl, ok := v.(*ssa.Call); ok {
+			rf := refOf(cl.Common())
+			if rf.Pkg == "regexp" && rf.Recv == "Regexp" && rf.Name == "SubexpNames" {
+				if n := c.numSubexp(cl.Call.Args[0]); n >= 0 {
+					g.addLE(ln, term{zeroSym, int64(n + 1)})
+					g.addLE(term{zeroSym, int64(n + 1)}, ln)
+				}
+			}
+		}
+		if ph, ok := v.(*ssa.Phi); ok {
+			// phi of regexp (sub)match results: non-nil/non-empty implies the smallest full length
+			mn := inf
+			for _, e := range ph.Edges {
+				n := int64(-1)
+				if cl, ok := e.(*ssa.Call); ok {
+					rf := refOf(cl.Common())
+					if rf.Pkg == "regexp" && rf.Recv == "Regexp" && (rf.Name == "FindStringSubmatch" || rf.Name == "FindSubmatch") {
+						if ns := c.numSubexp(cl.Call.Args[0]); ns >= 0 {
+							n = int64(ns + 1)
+						}
+					}
+				}
+				if isNilConst(e) {
+					continue
+				}
+				if n < 0 {
+					mn = -1
+					break
+				}
+				if n < mn {
+					mn = n
+				}
+			}
+			if mn > 0 && mn < inf {
+				c.regexResults = append(c.regexResults, regexRes{k, mn})
+			}
+		}
 		if n := c.minLen(g, v, map[ssa.Value]bool{}, 0); n > 0 {
 			g.addLE(term{zeroSym, n}, ln)
 		}
@@ -491,6 +546,13 @@ func (c *boundsCtx) intDefFacts(g *dgraph, v ssa.Value, k string, seen map[ssa.V
 				g.addLE(term{k, 0}, term{zeroSym, m - 1})
 			}
 		}
+		if x.Op == token.SUB {
+			if _, isC := constInt(x.Y); !isC {
+				if cl, ok := x.Y.(*ssa.Call); ok && isCallTo(cl, "builtin", "", "len") {
+					g.addLE(term{k, 0}, c.termOf(x.X)) // X - len(..) <= X
+				}
+			}
+		}
 	case *ssa.Call:
 		if b, ok := x.Call.Value.(*ssa.Builtin); ok {
 			switch b.Name() {
@@ -521,7 +583,7 @@ func (c *boundsCtx) intDefFacts(g *dgraph, v ssa.Value, k string, seen map[ssa.V
 					if s, ok := constString(x.Call.Args[1]); ok {
 						sepLen = int64(len(s))
 					} else {
-						sepLen = c.paramMinLen(x.Call.Args[1])
+						sepLen = max64(c.paramMinLen(x.Call.Args[1]), c.minLen(nil, x.Call.Args[1], map[ssa.Value]bool{}, 0))
 					}
 				}
 				// r + sepLen <= len(S) holds when r >= 0; when r == -1 it needs sepLen <= len(S)+1.
@@ -714,7 +776,7 @@ func (c *boundsCtx) minLen(g *dgraph, v ssa.Value, seen map[ssa.Value]bool, d in
 					return 0
 				}
 			}
-			if s, ok := constString(x.Call.Args[1]); ok && s != "" && g != nil && g.has[c.key(x.Call.Args[0])+"\x00"+s] {
+			if s, ok := constString(x.Call.Args[1]); ok && s != "" && g != nil && g.hasSuper(c.key(x.Call.Args[0]), s) {
 				if rf.Name == "SplitN" || rf.Name == "SplitAfterN" {
 					if n, ok := constInt(x.Call.Args[2]); !ok || (n >= 0 && n < 2) {
 						return 1
@@ -752,6 +814,32 @@ func (c *boundsCtx) minLen(g *dgraph, v ssa.Value, seen map[ssa.Value]bool, d in
 		}
 	case *ssa.UnOp:
 		if x.Op == token.MUL {
+			// element of a slice literal of constant strings
+			if ia, ok := x.X.(*ssa.IndexAddr); ok {
+				if sl, ok := ia.X.(*ssa.Slice); ok {
+					if al, ok := sl.X.(*ssa.Alloc); ok {
+						mn := inf
+						for _, ref := range *al.Referrers() {
+							if ia2, ok := ref.(*ssa.IndexAddr); ok {
+								for _, r2 := range *ia2.Referrers() {
+									if st, ok := r2.(*ssa.Store); ok {
+										if s, ok := constString(st.Val); ok {
+											if int64(len(s)) < mn {
+												mn = int64(len(s))
+											}
+										} else {
+											mn = 0
+										}
+									}
+								}
+							}
+						}
+						if mn < inf {
+							return mn
+						}
+					}
+				}
+			}
 			// element of FindAll(String)Submatch(Index): never nil, fixed length
 			if ia, ok := x.X.(*ssa.IndexAddr); ok {
 				if cl, ok := ia.X.(*ssa.Call); ok {
@@ -784,6 +872,17 @@ func (c *boundsCtx) lenKnownPositive(g *dgraph, v ssa.Value) bool {
 	}
 	z := g.idx[zeroSym]
 	return g.w[x][z] < inf && -g.w[x][z] >= 1
+}
+
+// hasSuper: a dominating strings.Contains(s, c) with sep a substring of c.
+func (g *dgraph) hasSuper(skey, sep string) bool {
+	pre := skey + "\x00"
+	for k := range g.has {
+		if strings.HasPrefix(k, pre) && strings.Contains(k[len(pre):], sep) {
+			return true
+		}
+	}
+	return false
 }
 
 func max64(a, b int64) int64 {
@@ -1206,7 +1305,7 @@ func (c *boundsCtx) lastIndexResults(v ssa.Value) []indexRes {
 		if s, ok := constString(cl.Call.Args[1]); ok {
 			sep = int64(len(s))
 		} else {
-			sep = c.paramMinLen(cl.Call.Args[1])
+			sep = max64(c.paramMinLen(cl.Call.Args[1]), c.minLen(nil, cl.Call.Args[1], map[ssa.Value]bool{}, 0))
 		}
 		return []indexRes{{c.key(v), "len(" + c.key(cl.Call.Args[0]) + ")", sep}}
 	case "IndexByte", "LastIndexByte", "IndexRune", "IndexAny", "LastIndexAny", "IndexFunc", "LastIndexFunc":
@@ -1279,7 +1378,23 @@ func (c *boundsCtx) proveSlice(at ssa.Instruction, s *ssa.Slice) (bool, string) 
 	if s.Low != nil && !g.le(term{zeroSym, 0}, lo) {
 		why = append(why, "cannot show "+showTerm(lo)+" >= 0")
 	}
-	if !g.le(lo, hi) {
+	loLEhi := g.le(lo, hi)
+	if !loLEhi && s.High != nil {
+		// hi = A - B with non-constant B:  lo <= A - B  <=>  lo + B <= A  (the sum has a canonical key)
+		if bo, ok := s.High.(*ssa.BinOp); ok && bo.Op == token.SUB && lo.off == 0 && lo.sym != zeroSym {
+			if _, isC := constInt(bo.Y); !isC {
+				a, b := lo.sym, c.key(bo.Y)
+				if a > b {
+					a, b = b, a
+				}
+				sum := term{"(" + a + "+" + b + ")", 0}
+				if g.le(sum, c.termOf(bo.X)) {
+					loLEhi = true
+				}
+			}
+		}
+	}
+	if !loLEhi {
 		why = append(why, "cannot show "+showTerm(lo)+" <= "+showTerm(hi))
 	}
 	if s.High != nil && !g.le(hi, ln) {
